@@ -212,7 +212,9 @@ def solve_scipy(
     constraints_violated = False
     max_violation = 0.0
 
-    if result.success and scipy_constraints:
+    # Checked for every returned point, not only when SciPy reports success:
+    # SLSQP can stop with "positive directional derivative" at an infeasible point.
+    if scipy_constraints:
         for c in scipy_constraints:
             c_val = c["fun"](result.x)
             # Scaled tolerance based on constraint magnitude
@@ -229,8 +231,16 @@ def solve_scipy(
                 max_violation = max(max_violation, violation)
                 constraints_violated = True
 
+    # Variable bounds count as constraints too (methods such as BFGS ignore them)
+    for xi, (lb, ub) in zip(result.x, bounds):
+        scaled_tol = atol + rtol * max(1.0, abs(xi))
+        excess = max(lb - xi, xi - ub)
+        if excess > scaled_tol:
+            max_violation = max(max_violation, excess)
+            constraints_violated = True
+
     # If SLSQP returned "optimal" but constraints are violated, retry with trust-constr
-    if constraints_violated and method == "SLSQP":
+    if result.success and constraints_violated and method == "SLSQP":
         warnings.warn(
             f"SLSQP returned a solution that violates constraints (max violation: {max_violation:.2e}). "
             "Retrying with trust-constr method for more robust optimization.",
@@ -254,11 +264,16 @@ def solve_scipy(
         status = SolverStatus.OPTIMAL
     elif "maximum" in result.message.lower() and "iteration" in result.message.lower():
         status = SolverStatus.MAX_ITERATIONS
-    elif "infeasible" in result.message.lower() or constraints_violated:
+    elif "infeasible" in result.message.lower() or (
+        result.success and constraints_violated
+    ):
         status = SolverStatus.INFEASIBLE
-    elif "positive directional derivative" in result.message.lower():
+    elif (
+        "positive directional derivative" in result.message.lower()
+        and not constraints_violated
+    ):
         # SLSQP reports this when it converged but hit numerical precision limits
-        # The solution is typically still good - treat as optimal
+        # The solution is typically still good - treat as optimal (if feasible)
         status = SolverStatus.OPTIMAL
     else:
         status = SolverStatus.FAILED
